@@ -111,6 +111,8 @@ def run(ctx):
     cov["evaluations"] = len(events) + pr["verdict_evaluations"]
     cov["distinct_nontrivial"] = pr["cases"]
     cov["cli_runs"] = cli_leg(ctx)
+    import clifam
+    clifam.replay(ctx, "C17", only=lambda c: c["cmd"] in ("init", "add", "update"))
     cov["rule"] = ("policy condition strings: every Policy case through NewPasswordPolicy/NewStore, verdicts against an independent zxcvbn "
                    "call; write paths: add/update via the in-process interface and the HTTP API, init, local upgrade and seeded loads "
                    "for each condition kind, traces validated against TraceAgent with PolicyOK computed independently; CLI on the built binary")
